@@ -257,6 +257,11 @@ pub fn run_batch(prop: &Prop, batch: &Batch, tier: &str, seed: u64, workers: usi
     let mut serial = 0usize;
     let hang_after = hang_limit();
     loop {
+        // enough evidence that the property is broken: do not spend the whole budget on it
+        // (a hanging run costs a full time-out each)
+        if agg.violations.len() >= 48 && !pending.is_empty() {
+            pending.clear();
+        }
         while jobs.len() < workers {
             let Some((lo, hi)) = pending.pop() else { break };
             serial += 1;
